@@ -167,6 +167,9 @@ def _run_backend(part, b, groups, k, seed, tier):
         ok, err = fw.repo_builds(b)
         if not ok:
             raise fw.Inconclusive("/repo does not build (%s)" % b)
+        if not diags:
+            # cargo ended without a single compiler error (killed, disk, lock ...): nothing was observed about the definitions
+            raise fw.Inconclusive("building the generated executor (%s) failed without a compiler diagnostic" % b)
         part.evals += 1
         msg = "; ".join("%s:%s %s" % (d["file"], d["line"], (d["message"] or "")[:160]) for d in diags[:4])
         viol("does_not_compile", "generated executor", "well-formed generated definitions do not compile: %s (sources kept in %s)" % (msg, cdir))
@@ -387,7 +390,9 @@ def exponent_literals(total):
     def viol(kind, key, text, case=None):
         sig = {"backend": b, "kind": kind, "type": key, "group": "exponent_literals", "class": {"kind": kind, "backend": b, "type": key, "group": "exponent_literals"}}
         total.violation(sig, "C11 %s: %s %s (exponent-notation literals): %s" % (kind, b, key, text), {"module": "c11", "backend": b, "kind": "generated", "crate": cdir})
-    if binp is None:
+    if binp is None and not diags:
+        total.inconclusive.append("building the exponent-literal definition failed without a compiler diagnostic")
+    elif binp is None:
         viol("does_not_compile", "expl::ExpLit", "definition with exponent-notation scale literals does not compile: %s" % (diags[:1],))
         return
     reg = registry.load(b, {"x_core": binp})
